@@ -15,9 +15,9 @@ EXTENDS Integers, Sequences, FiniteSets, TLC, Json
 
 CONSTANTS ExpNames, ImpNames, Keys, Vals, MaxOps
 
-VARIABLES exp, imp, op, clk
+VARIABLES exp, imp, op, clk, lines
 
-vars == <<exp, imp, op, clk>>
+vars == <<exp, imp, op, clk, lines>>
 
 Absent == "-"
 Empty == [k \in Keys |-> Absent]
@@ -28,16 +28,29 @@ Init ==
   /\ imp = [n \in ImpNames |-> Empty]
   /\ op = [name |-> "Init", n |-> "", k |-> "", v |-> "", mode |-> "", who |-> ""]
   /\ clk = 0
+  /\ lines = {}
+
+(* ExportJSONL: one JSON line {name, key, value, expireAt} per entry of the  *)
+(* requested cache (all caches when no name is given); an unknown name is    *)
+(* answered with 404 and no lines.  `lines` is the set of (name, key, value) *)
+(* triples the handler wrote.                                                *)
+ExportJSONL(n) ==
+  /\ n \in ExpNames \cup {"", "nosuch"}
+  /\ lines' = IF n = "nosuch" THEN {<<"404", "", "">>}
+              ELSE {<<m, k, exp[m][k]>> : m \in (IF n = "" THEN ExpNames ELSE {n}), k \in Keys} \ 
+                   {<<m, k, Absent>> : m \in ExpNames, k \in Keys}
+  /\ op' = [name |-> "ExportJSONL", n |-> n, k |-> "", v |-> "", mode |-> "", who |-> ""]
+  /\ clk' = clk + 1 /\ UNCHANGED <<exp, imp>>
 
 PutExp(n, k, v) ==
   /\ exp' = [exp EXCEPT ![n][k] = v]
   /\ op' = [name |-> "PutExp", n |-> n, k |-> k, v |-> v, mode |-> "", who |-> ""]
-  /\ clk' = clk + 1 /\ UNCHANGED imp
+  /\ clk' = clk + 1 /\ UNCHANGED <<imp, lines>>
 
 PutImp(n, k, v) ==
   /\ imp' = [imp EXCEPT ![n][k] = v]
   /\ op' = [name |-> "PutImp", n |-> n, k |-> k, v |-> v, mode |-> "", who |-> ""]
-  /\ clk' = clk + 1 /\ UNCHANGED exp
+  /\ clk' = clk + 1 /\ UNCHANGED <<exp, lines>>
 
 Merge(dst, src, S) == [k \in Keys |-> IF k \in S THEN src[k] ELSE dst[k]]
 
@@ -56,13 +69,14 @@ Import(mode, who) ==
                   ELSE pick[n] = Present(exp[n])
         /\ imp' = [n \in ImpNames |-> IF n \in ExpNames THEN Merge(imp[n], exp[n], pick[n]) ELSE imp[n]]
   /\ op' = [name |-> "Import", n |-> "", k |-> "", v |-> "", mode |-> mode, who |-> who]
-  /\ clk' = clk + 1 /\ UNCHANGED exp
+  /\ clk' = clk + 1 /\ UNCHANGED <<exp, lines>>
 
 Next ==
   \/ \E n \in ExpNames, k \in Keys, v \in Vals : PutExp(n, k, v)
   \/ \E n \in ImpNames, k \in Keys, v \in Vals : PutImp(n, k, v)
   \/ \E m \in {"ok", "hash"} : Import(m, "")
   \/ \E m \in {"cut", "neterr"}, w \in ImpNames : Import(m, w)
+  \/ \E n \in ExpNames \cup {"", "nosuch"} : ExportJSONL(n)
 
 Spec == Init /\ [][Next]_vars
 View == <<exp, imp>>
